@@ -421,6 +421,8 @@ def check(repo, rep, tier):
   rule_core(repo, rep)
   rule_frame(repo, rep)
   rule_unlabelled(repo, rep)
+  from . import c07b
+  c07b.rule_wrap_pairs(repo, rep)
   # "with the same hyper-parameters": fitting the supervised variant leaves
   # the hyper-parameter objects it shares with the base learner untouched
   from . import c17 as _c17
